@@ -23,7 +23,7 @@ from __future__ import annotations
 
 import ast
 
-from .model import Program, AnalysisError
+from .model import is_cached_property, Program, AnalysisError
 
 META_ATTRS = {"shape", "ndim", "dtype", "size", "chunks", "nbytes", "itemsize", "npartitions", "chunksize"}
 BUFFER_ATTRS = {"_data": "the sample buffer is writable in place (out=, in-place operators, z.data[...] = v) without any attribute assignment"}
@@ -209,6 +209,7 @@ def analyse(prog: Program):
                 if pr is not None and pr["set"] is not None:
                     continue        # goes through the setter, which is examined itself
                 writers.setdefault(attr, []).append((fi, node))
+        candidates = []
         for fi in fns:
             if fi.cls is not ci:
                 continue            # derived attributes are attributed to the class that defines the assignment
@@ -220,6 +221,17 @@ def analyse(prog: Program):
                 if pr is not None and pr["set"] is not None:
                     continue
                 deps = {(a, m) for a, m in reads.of_expr(fi, rhs) if a != attr}
+                candidates.append((fi, attr, node, deps))
+        # functools.cached_property (and astropy's lazyproperty): the getter's first result is kept in the instance dict under
+        # the property's own name -- a derived attribute whose "assignment" is the decorator
+        for pname, pr in ci.properties.items():
+            g = pr.get("get")
+            if is_cached_property(g):
+                n_stores += 1
+                deps = {(a, m) for a, m in reads.of_function_returns(g) if a != pname}
+                candidates.append((g, pname, g.node, deps))
+        for fi, attr, node, deps in candidates:
+            if True:
                 if not deps:
                     continue
                 rec = {"class": ci.name, "attr": attr, "in": fi.qualname, "where": f"{fi.where}", "line": node.lineno,
